@@ -474,7 +474,7 @@ def _jobs_for(prop, tier):
     if prop == 'C09':
         return jobs_c09(tier) + [j for j in jobs_option_below(tier) if j[1][3] in ('rpad', 'rpad_and_clip')] + jobs_simplify(tier) + jobs_fillna(tier) + jobs_bytemask(tier) + jobs_record_below(tier, ('rpad', 'rpad_and_clip')) + jobs_axis_through_record(tier, ('rpad', 'rpad_and_clip')) + [j for j in jobs_c02(tier) if j[1][0] in ('IndexedOptionArray64', 'ByteMaskedArray', 'BitMaskedArray', 'UnmaskedArray')]
     if prop == 'C11':
-        return jobs_simplify(tier) + jobs_validity_params(tier)
+        return jobs_simplify(tier) + jobs_validity_params(tier) + jobs_list_validity(tier)
     if prop == 'C07':
         return [j for j in jobs_option_below(tier) if j[1][3] == 'combinations'] + jobs_combinations(tier) + jobs_axis0(tier, 'combinations') + jobs_record_below(tier, ('combinations',))
     if prop == 'C03':
@@ -6576,6 +6576,90 @@ def h_validity_string_content(kind):
         return False, 'native library answers %r' % got[:80], payload
     return mdischarge(nc.m, unit, obls, [], replay=replay,
                       extra=dict(bounds='one list node over an opaque content; parameter lookups (rapidjson comparison) stubbed by their answers'))
+
+
+@guard
+def h_list_validity(n, view):
+    """ListOffsetArray64::validityerror with the offsets being a window (starting `view` entries in) of a longer buffer, as a range slice leaves
+    them: the rule check (the kernel awkward_ListArray64_validity, decided on its own for arbitrary offsets by the C11 kernel harnesses) is handed
+    the starts and stops *of the window* - entries view.. and view+1.. of the buffer -, the number of lists and the content's length; when it
+    finds nothing the content is asked about itself and its answer is returned"""
+    nc = NodeCtx(['LOA', 'CNT', 'LA', 'RA', 'NA', 'IDX', 'UTL', 'KD', 'IDS'], [], unwind=max(16, 2 * n + view + 12))
+    nc.m.eng.stubs.update(nodeh.STRING_LENGTH_STUBS)          # texts: lengths only
+    ss_ = string_stubs(nc)
+    nc.m.eng.stubs.update({k_: ss_[k_] for k_ in ('memcmp', 'bcmp')})          # (comparing with the empty text: zero bytes)
+    nc.m.eng.stubs['_ZNK7awkward7Content16parameter_equalsERKNSt7__cxx1112basic_stringIcSt11char_traitsIcESaIcEEES8_'] = lambda eng, fr, ins, st, name, argv: z3.BitVecVal(0, 1)
+    nc.m.eng.stubs['_ZN7awkward4util16parameter_equalsE*'] = lambda eng, fr, ins, st, name, argv: z3.BitVecVal(0, 1)
+    nc.m.eng.stubs['vf$slot%d' % nc.slot('9classnameB5cxx11Ev')] = nodeh.s_some_string
+    nc.m.eng.stubs['_ZNK7awkward7Content24validityerror_parametersE*'] = nodeh.s_empty_string          # a list without parameters: nothing to say about them
+    asked, seen = [], []
+
+    def s_content_validity(eng, fr, ins, st, name, argv):
+        asked.append(st.pc)
+        n_ = z3.FreshConst(z3.BitVecSort(64), 'contenttext')
+        eng.s.add(n_ >= 0, n_ <= 64)
+        asked_len.append(n_)
+        nodeh._set_string(eng, st, argv[0], n_)
+        return None
+    asked_len = []
+
+    def s_kernel(eng, fr, ins, st, name, argv):
+        sret, starts_, stops_, length, lencontent = argv
+        seen.append(dict(pc=st.pc, starts=starts_, stops=stops_, length=length, lencontent=lencontent))
+        rec = st.mem.o[sret.obj]
+        for off, (v, w) in {0: (NULL, 8), 8: (NULL, 8), 16: (BV(2 ** 63 - 1), 8), 24: (BV(2 ** 63 - 1), 8), 32: (BV(0, 8), 1)}.items():
+            rec.cells[sret.off + off] = (v, w)
+        return None
+    nc.m.eng.stubs['awkward_ListArray64_validity'] = s_kernel
+    nc.m.eng.stubs['vf$slot%d' % nc.slot('13validityerrorERKNSt7__cxx1112basic_string')] = s_content_validity
+    fo, sz, al, fields = nc.layout_of('LOA', '_ZNK7awkward17ListOffsetArrayOfIlE6lengthEv')
+    total = view + n + 1
+    data = nc.m.array('vo_offsets', ('i', 64), total, const=True)
+    cells = nc.content_header('node', nc.vptr_of('N7awkward17ListOffsetArrayOfIlEE', 'LOA'))
+    nc.index_cells(cells, fo[1], data, BV(view), BV(n + 1))
+    cells.update({fo[2]: (nc.content0, 8), fo[2] + 8: (NULL, 8), fo[3]: (BV(0, 8), 1)})
+    this = nc.m.record('node', cells, const=True)
+    pc_ = {}
+    _string_cells(pc_, 0, 'path', 'layout')
+    path = nc.m.record('path', pc_, const=True)
+    nc.m.record('ret', {})
+    out = nc.m.call('_ZNK7awkward17ListOffsetArrayOfIlE13validityerrorERKNSt7__cxx1112basic_stringIcSt11char_traitsIcESaIcEEE', [Ptr('ret', 0), this, path])
+    ln = out.mem.o['ret'].cells[8][0]
+    obls = [('the check does not raise', out.raised), ('the rule check is run', z3.Not(z3.Or([ob['pc'] for ob in seen] + [z3.BoolVal(False)]))),
+            ('the content is asked about itself when the offsets obey the rules', z3.Not(z3.Or(asked + [z3.BoolVal(False)])))]
+
+    def points_at(p, k):
+        cs = nodeh.ptr_cases(p)
+        return z3.Or([z3.And(g, z3.BoolVal(q.obj == 'vo_offsets'), bv64_(q.off) == k) for g, q in cs] + [z3.BoolVal(False)])
+    bv64_ = lambda x: BV(x) if isinstance(x, int) else x
+    for ob in seen:
+        g = ob['pc']
+        obls.append(('the starts checked are the window\'s: entries %d.. of the offsets buffer' % view, z3.And(g, z3.Not(points_at(ob['starts'], view)))))
+        obls.append(('the stops checked are the window\'s: entries %d.. of the offsets buffer' % (view + 1), z3.And(g, z3.Not(points_at(ob['stops'], view + 1)))))
+        obls.append(('as many lists are checked as the array has, against the length of its content', z3.And(g, z3.Or(ob['length'] != n, ob['lencontent'] != nc.lencontent))))
+    for pc, n_ in zip(asked, asked_len):
+        obls.append(('what the content says about itself is the answer', z3.And(pc, z3.Not(out.raised), ln != n_)))
+
+    def replay(model, ent):
+        # a window whose own offsets are fine behind a prefix that is not, and the other way round
+        results = []
+        for bufv, lc, want_bad in (([9] * view + [1 + k for k in range(n + 1)], n + 1, False), ([0] * view + [7] + [1] * n, 8, n > 0)):
+            prog = 'i64 %s listoffset64 %s viewfrom %d validity' % (fullnative.ints(range(lc)), fullnative.ints(bufv), view)
+            kind_, got = fullnative.akrun(prog)
+            results.append(dict(program=prog, native=[kind_, got], window=bufv[view:], invalid=want_bad))
+            if kind_ != 'OK' or bool(got) != want_bad:
+                return True, 'ListOffsetArray64 with offsets %s (a window starting %d entries into the buffer %s) over a content of %d: these offsets are %s, the native check says %s %r' % (
+                    bufv[view:], view, bufv, lc, 'invalid' if want_bad else 'valid', kind_, str(got)[:120]), dict(runs=results)
+        return False, 'native check agrees on both witnesses', dict(runs=results)
+    return mdischarge(nc.m, 'ListOffsetArray64::validityerror %d lists, offsets window starting at %d' % (n, view), obls, [], replay=replay,
+                      extra=dict(bounds='%d lists (case split), offsets window %d entries into its buffer; offsets and content length symbolic; the rule kernel is a stub that finds nothing (its verdicts are the C11 kernel harnesses\' subject)' % (n, view)))
+
+
+def jobs_list_validity(tier):
+    q = [(2, 0), (2, 1), (1, 2)]
+    if tier != 'quick':
+        q += [(0, 0), (0, 2), (3, 1), (1, 0), (3, 0)]
+    return [(h_list_validity, a, 1800) for a in q]
 
 
 def jobs_validity_params(tier):
